@@ -145,29 +145,34 @@ def bridge_source(structs, per_owner=60):
 
 
 def oracle_source(structs):
-    """host program printing the repr(C) layout (32-bit pointers substituted) as JSON"""
+    """host program printing the repr(C) layout (32-bit pointers substituted) as JSON.  One small function per struct and two
+    generic printers: a single huge main() with one println! per line took rustc the better part of an hour on the thorough universe"""
     L = ["#![allow(dead_code, non_snake_case)]", "use diplomat_runtime::{DiplomatOption, DiplomatResult};", "use core::mem::{size_of, align_of, offset_of};",
          "#[repr(C)] #[derive(Clone, Copy)] pub enum En { A = 0, B = 5, C = -6 }",
-         "#[repr(C)] pub struct In1 { pub x: u8 }", "#[repr(C)] pub struct In2 { pub a: u8, pub b: u32 }", "#[repr(C)] pub struct In3 { pub p: u64, pub q: u8, pub r: u16 }"]
+         "#[repr(C)] pub struct In1 { pub x: u8 }", "#[repr(C)] pub struct In2 { pub a: u8, pub b: u32 }", "#[repr(C)] pub struct In3 { pub p: u64, pub q: u8, pub r: u16 }",
+         "#[inline(never)] fn st<T>(name: &str, offs: &[usize]) { println!(\"\\\"{}\\\": {{\\\"size\\\": {}, \\\"align\\\": {}, \\\"offsets\\\": {:?}}},\", name, size_of::<T>(), align_of::<T>(), offs); }",
+         "#[inline(never)] fn fl<T>(name: &str, flag: usize) { println!(\"\\\"{}\\\": {{\\\"size\\\": {}, \\\"align\\\": {}, \\\"flag\\\": {}}},\", name, size_of::<T>(), align_of::<T>(), flag); }"]
     for s in structs:
         L.append("#[repr(C)] pub struct %s { %s }" % (s.name, ", ".join("pub %s: %s" % (n, f.oracle) for n, f in s.fields)))
-    L.append("fn main() {")
-    L.append('    println!("{{");')
+    calls = []
     for t in ("In1", "In2", "In3"):
         fs = NESTED[t].inner
-        L.append('    println!("\\"%s\\": {{\\"size\\": {}, \\"align\\": {}, \\"offsets\\": [%s]}},", size_of::<%s>(), align_of::<%s>(), %s);'
-                 % (t, ", ".join("{}" for _ in fs), t, t, ", ".join("offset_of!(%s, %s)" % (t, n) for n, _ in fs)))
+        calls.append('st::<%s>("%s", &[%s]);' % (t, t, ", ".join("offset_of!(%s, %s)" % (t, n) for n, _ in fs)))
     for o in (OU8, OU16, OU64, OEN, OIN2, OBOOL):
-        L.append('    println!("\\"%s\\": {{\\"size\\": {}, \\"align\\": {}, \\"flag\\": {}}},", size_of::<%s>(), align_of::<%s>(), offset_of!(%s, is_ok));'
-                 % (o.oracle, o.oracle, o.oracle, o.oracle))
+        calls.append('fl::<%s>("%s", offset_of!(%s, is_ok));' % (o.oracle, o.oracle, o.oracle))
+    L.append("fn p_fixed() { %s }" % " ".join(calls))
     for s in structs:
-        L.append('    println!("\\"%s\\": {{\\"size\\": {}, \\"align\\": {}, \\"offsets\\": [%s]}},", size_of::<%s>(), align_of::<%s>(), %s);'
-                 % (s.name, ", ".join("{}" for _ in s.fields), s.name, s.name, ", ".join("offset_of!(%s, %s)" % (s.name, n) for n, _ in s.fields)))
+        body = ['st::<%s>("%s", &[%s]);' % (s.name, s.name, ", ".join("offset_of!(%s, %s)" % (s.name, n) for n, _ in s.fields))]
         if not s.lifetime:
             for w, (okt, errt) in WRAPPERS.items():
                 t = "DiplomatResult<%s, %s>" % (okt.replace("@", s.name), errt.replace("@", s.name))
-                L.append('    println!("\\"%s|%s\\": {{\\"size\\": {}, \\"align\\": {}, \\"flag\\": {}}},", size_of::<%s>(), align_of::<%s>(), offset_of!(%s, is_ok));'
-                         % (s.name, w, t, t, t))
+                body.append('fl::<%s>("%s|%s", offset_of!(%s, is_ok));' % (t, s.name, w, t))
+        L.append("fn p_%s() { %s }" % (s.name, " ".join(body)))
+    L.append("fn main() {")
+    L.append('    println!("{{");')
+    L.append("    p_fixed();")
+    for s in structs:
+        L.append("    p_%s();" % s.name)
     L.append('    println!("\\"_end\\": 0}}");')
     L.append("}")
     return "\n".join(L) + "\n"
